@@ -22,12 +22,6 @@ object destroyed; `initialLive pre` is the live set before the call.
 namespace C14
 open PPLV.Alloc
 
-private theorem clean_start {o : Nat → Nat → Outcome} {f : Heap → Outcome}
-    (ho : ∀ pre k, o pre k = f (Heap.start pre k))
-    (hc : ∀ pre k, Clean (List.range pre).reverse (f (Heap.start pre k))) (pre k : Nat) :
-    (o pre k).live = initialLive pre ∧ (o pre k).bad = 0 := by
-  rw [ho]; exact ⟨(hc pre k).live, (hc pre k).bad⟩
-
 /-! ## CO_Tree -/
 
 /-- `CO_Tree(const CO_Tree&)` = `init` + `copy_data_from`: for every source tree and every failing
@@ -115,6 +109,26 @@ theorem no_leak_dense_resize (m cap newSize pre k : Nat) :
   exact ⟨this.live, this.bad⟩
 
 example : (Run.denseResize 2 2 6 1 2).thrown = true ∧ (Run.denseResize 2 2 6 1 2).live = [0] := by decide
+
+/-- `Dense_Row::operator=(const Sparse_Row&)`, reallocation branch, **frees twice as written**: the
+allocation of `init` fails (`k = 0`) after `destroy()` has released the vector without resetting the
+pointer; `~Impl()` releases it again. -/
+theorem no_double_free_dense_assign_sparse_fails :
+    ¬ (∀ m0 cap m pre k, (Run.denseAssignSparse m0 cap m pre k).bad = 0) := by
+  intro h; have := h 3 3 12 0 0; revert this; decide
+
+/-- …and is clean for every later fault position (and every shape of the two rows).  Missing for
+the full statement: `destroy()` should null `impl.vec` (or `init` should run before `destroy`). -/
+theorem no_double_free_dense_assign_sparse_partial (m0 cap m pre k : Nat) (hcap : cap ≠ 0) (hk : k ≠ 0) :
+    (Run.denseAssignSparse m0 cap m pre k).live = initialLive pre ∧ (Run.denseAssignSparse m0 cap m pre k).bad = 0 := by
+  have := denseAssignSparse_clean_of_alloc m0 cap m (Tracks.ofStart pre k) hcap (by
+    intro h1 hcd _
+    rw [alloc_ok (Or.inr (by rw [hcd]; simpa [Heap.start] using hk))]
+    simp)
+  exact ⟨this.live, this.bad⟩
+
+example : (Run.denseAssignSparse 3 3 12 1 0).thrown = true ∧ (Run.denseAssignSparse 3 3 12 1 0).bad = 1
+    ∧ (Run.denseAssignSparse 3 3 12 1 4).bad = 0 ∧ (Run.denseAssignSparse 3 3 12 1 4).live = [0] := by decide
 
 theorem no_leak_swapvec_push (m cap pre k : Nat) :
     (Run.svecPush m cap pre k).live = initialLive pre ∧ (Run.svecPush m cap pre k).bad = 0 := by
